@@ -402,4 +402,59 @@ theorem validity_stack_roundtrip (ls : List Layer) (k : Nat) (honly : onlyValidi
     rw [hrun, hmask0]
     simp [unravelAll, nf]
 
+/-- the same with "serialisation returned def levels" in place of "at least one row" -/
+theorem validity_stack_roundtrip_lev (ls : List Layer) (k : Nat) (honly : onlyValidity ls = true)
+    (hal : aligned ls = true) (hdef : 0 < numDefs ls) (hT : numDefs ls ≤ T)
+    (s : Ser) (hs : serializeLayers ls = some s) (hlev : s.dl ≠ none) :
+    unravelAll [Unr.new s.rep s.dl s.meaning k] (kindsOf ls) = some (nf ls).reverse := by
+  unfold serializeLayers at hs
+  cases hrec : (Ctx.init ls).recordLayers ls with
+  | none => rw [hrec] at hs; simp at hs
+  | some c' =>
+    rw [hrec] at hs
+    simp only [Option.map_some, Option.some.injEq] at hs
+    have hdef' : 0 < (ls.map Layer.maxDef).sum := by rw [sum_maxDef_eq]; exact hdef
+    have hd0 : (Ctx.init ls).hasDef = true := by simp [Ctx.init, hdef']
+    have hr0 : (Ctx.init ls).hasRep = false := by simp [Ctx.init, sum_maxRep_onlyValidity ls honly]
+    have hes0 : (Ctx.init ls).es = List.replicate (stackRows ls) ⟨0, 0⟩ := rfl
+    have hmask0 : maskOf (Ctx.init ls).es = List.replicate (stackRows ls) true := by rw [hes0, maskOf_replicate]
+    have hal0 : alignedB (maskOf (Ctx.init ls).es) ls = true := by rw [hmask0]; exact hal
+    obtain ⟨hmf, hd', hr'⟩ := recordLayers_fields ls (Ctx.init ls) c' (noFsl_of_onlyValidity ls honly) hd0 hrec
+    have hm0 : (Ctx.init ls).meaningRev = [] := rfl
+    rw [hm0, List.append_nil] at hmf
+    have hcurlen : c'.curLen ≠ 0 := by
+      intro h0
+      apply hlev
+      rw [← hs]; unfold Ctx.build; rw [if_pos h0]; rfl
+    have hsb : s = Ser.new none (some (c'.es.map (fun e => normLevel e.dl))) c'.meaningRev := by
+      rw [← hs]; unfold Ctx.build
+      rw [if_neg hcurlen, hr', hr0, hd']; rfl
+    have hinv0 : ∀ e ∈ (Ctx.init ls).es, EInv (numDefs ls) 0 (structLevelsAbove (Ctx.init ls).meaningRev)
+        (ndM c'.meaningRev) e := by
+      intro e he
+      rw [hes0] at he
+      have := List.eq_of_mem_replicate he
+      subst this
+      exact Or.inr ⟨Or.inl rfl, by decide, Or.inl rfl⟩
+    obtain ⟨u1, ds, hrun, _⟩ :=
+      validity_stack_main (ndM c'.meaningRev) ls (Ctx.init ls) c' []
+        (Unr.new s.rep s.dl s.meaning k) honly hd0 (by simp [Ctx.init, sum_maxDef_eq]) hrec hinv0 hal0
+        (by rw [hm0]; simp [structLevelsAbove]; exact hT) rfl
+        (by rw [hsb]; rfl) (by rw [hsb]; rfl) rfl rfl rfl
+        ⟨c'.es.map (fun e => normLevel e.dl), by rw [hsb]; rfl, rel2_normLevel c'.es⟩
+    rw [List.append_nil] at hrun
+    rw [hrun, hmask0]
+    simp [unravelAll, nf]
+
+
+theorem onlyValidity_of_noLists : ∀ (ls : List Layer), noFsl ls = true → numLists ls = 0 → onlyValidity ls = true
+  | [], _, _ => rfl
+  | l :: ls, hf, hn => by
+    cases l with
+    | validity v n =>
+      simp only [onlyValidity]
+      exact onlyValidity_of_noLists ls (by simpa [noFsl] using hf) (by simpa [numLists, Layer.maxRep] using hn)
+    | offsets _ _ _ _ => simp [numLists, Layer.maxRep] at hn
+    | fsl _ _ _ => simp [noFsl] at hf
+
 end LanceModel.C27
